@@ -44,7 +44,8 @@ def world_description(tier):
     return ((f"three-exon structures N={w['N3']} x all 27 frame vectors; " if w["N3"] else "") + f"structure: layouts N={w['N']} k<={w['k']} x strands x all frame vectors; windows: layouts N={w['Nw']} k<=2 x all (a,b) x expand; "
             f"sequence: 3 genomes on layouts N={w['Nc']}; codon table: 64 codons x 3 positions x 2 structures x 3 tables x truncate x strict; "
             f"windows also on chunk-built CDS (containing / cutting chunks); scale family: CDS of {SCALE_KS[tier]} exons x strands x start frames x "
-            f"frameshift at the middle exon")
+            f"frameshift at the middle exon; every CDS of >= 2 exons also listed in every other order (all permutations of 3, rotations + reversal of more), "
+            f"merged twice on an object that shares its lists with a sibling, empty windows (b == a)")
 
 
 def shards(tier, seed):
